@@ -165,8 +165,12 @@ func icptRules(tok string) map[string]mux.InterceptorFunc {
 	return m
 }
 
+// mwCalls counts every invocation of a middleware factory (op `mw-calls`): "exactly once per wrapped handler"
+var mwCalls int
+
 func mwOf(id int) types.Middleware[*H] {
 	return types.MiddlewareFunc[*H](func(next *H, method, pattern, router string) *H {
+		mwCalls++
 		if next == nil {
 			next = &H{base: "nil"}
 		}
@@ -934,6 +938,8 @@ func (x *executor) step(line string) string {
 			}
 			return "grouter " + encB(r.Name()) + " " + fmtRoutes(r.Routes())
 		})
+	case t[0] == "mw-calls" && len(t) == 1:
+		return "mwcalls " + strconv.Itoa(mwCalls)
 	case t[0] == "methods" && len(t) == 1:
 		return "methods " + encL(mux.Methods()) + " any " + encL(mux.AnyMethods())
 	case t[0] == "gserve" && len(t) == 7:
